@@ -6,7 +6,7 @@ UNITS = loc.loc_units('C14')[:2] + loc.parts_units('C14') + [loc.chunk_loc_unit(
          snapbody.encrypt_body_unit('C14'), snapbody.decrypt_body_unit('C14'), snapbody.reader_inverse_lemma('C14'), keys.init_unit('C14'), c01_lemmas.lemmas('C14'), restore.plan_unit('C14')] + misc.json_units('C14') + misc.metadata_units('C14') + misc.primitive_units('C14') + misc.hashlib_adapter_units('C14') + misc.ts_to_dt_units('C14') + misc.aead_units('C14') + misc.aead_ctor_units('C14') + keys.config_units('C14') + keys.from_config_units('C14')
 from specs import families as _families
 UNITS = _families.with_families('C14', UNITS)
-BOUNDED = [{'name': 'C14.reference', 'script': 'bounded/c14_reference.py', 'timeout': 900, 'args': {'prop': 'C14'}, 'bound': 'independent reader/writer of the documented format (hashlib, cryptography, json, base64 only): 3 (thorough: 5) configurations (ciphers, hashes, chunk sizes) x 6 files incl. empty/duplicate, replicat writes -> reference reads names, keys, tables, ranges (tiling), digests; reference writes (encrypted/plain x current/pre-1.3 metadata) -> replicat restores, lists; one configuration with a 20 MiB file, a 1 MiB + 1 file, a 7-byte file and an empty file at chunk sizes 32..64 KiB (several hundred chunks complete while the file is still being read)'}]
+BOUNDED = [{'name': 'C14.reference', 'script': 'bounded/c14_reference.py', 'timeout': 900, 'args': {'prop': 'C14'}, 'bound': 'independent reader/writer of the documented format (hashlib, cryptography, json, base64 only): 3 (thorough: 5) configurations (ciphers, hashes, chunk sizes) x 6 files incl. empty/duplicate, replicat writes -> reference reads names, keys, tables, ranges (tiling), digests; reference writes (encrypted/plain x current/pre-1.3 metadata) -> replicat restores, lists; one configuration with a 20 MiB file, a 1 MiB + 1 file, a 7-byte file and an empty file at chunk sizes 32..64 KiB (several hundred chunks complete while the file is still being read); file names that are not valid UTF-8 (Latin-1 bytes) and non-ASCII UTF-8 among the reference files (strict-UTF-8 JSON reader)'}]
 TRUSTED = [
     'vf symbolic executor (/verif/vf): encoding of the Python subset (DESIGN 2.2)',
     'z3 5.1 (API + z3-new CLI), cvc5 1.0.3 (strings)',
